@@ -20,7 +20,8 @@ pub struct Case {
     pub offset: i64,
     pub check: bool,
     /// 0: FDT then object; 1: object (in-band FTI) then FDT; 2: object (no FTI, cached) then FDT;
-    /// 3: FDT, cleanup, object; 4: FDT, object A early, object B late
+    /// 3: FDT, cleanup, object; 4: FDT, object A early, object B late;
+    /// 5: FDT #1 (lists A), 20 s later FDT #2 (lists only B, expires 2 h later), then A and B together
     pub timing: u8,
     /// for timing 0/3/4: (estimate of the sender clock when the object arrives) - Expires, seconds
     pub obj_est_minus_expires: i64,
@@ -66,7 +67,7 @@ pub struct Outcome {
 pub fn expected(c: &Case) -> Vec<bool> {
     if !c.check {
         return match c.timing {
-            4 => vec![true, true],
+            4 | 5 => vec![true, true],
             _ => vec![true],
         };
     }
@@ -80,10 +81,16 @@ pub fn expected(c: &Case) -> Vec<bool> {
             let s1 = obj_sender_time(c, c.obj_est_minus_expires);
             vec![fdt_valid_at_completion && est(s1) <= e]
         }
-        _ => {
+        4 => {
             let sa = obj_sender_time(c, (-3600i64).min(c.obj_est_minus_expires));
             let sb = obj_sender_time(c, c.obj_est_minus_expires);
             vec![fdt_valid_at_completion && est(sa) <= e, fdt_valid_at_completion && est(sb.max(sa)) <= e]
+        }
+        _ => {
+            // two instances: A is announced only by #1 (expires e), B only by #2 (expires e + 7200)
+            let s1 = obj_sender_time(c, c.obj_est_minus_expires).max(S0 as i64 + 21);
+            let fdt2_valid_at_completion = est(S0 as i64 + 20) <= e + 7200;
+            vec![fdt_valid_at_completion && est(s1) <= e, fdt2_valid_at_completion && est(s1) <= e + 7200]
         }
     }
 }
@@ -113,6 +120,10 @@ pub fn run_case(c: &Case) -> Outcome {
     if c.timing == 4 {
         x = x.file(mkfile(6, &content_b));
     }
+    let xml2 = {
+        let e2 = unix_to_ntp_secs((S0 as i64 - c.sct_minus_expires + 7200) as u64);
+        FdtX::new(&e2.to_string()).file(mkfile(6, &content_b)).xml()
+    };
     let xml = x.xml();
     // FDT packets: (sender time, bytes)
     let mut fdt: Vec<(i64, Vec<u8>)> = Vec::new();
@@ -157,6 +168,21 @@ pub fn run_case(c: &Case) -> Outcome {
                 evs.push((s1, E::Pkt(p.clone())));
             }
         }
+        5 => {
+            for (t, p) in &fdt {
+                evs.push((*t, E::Pkt(p.clone())));
+            }
+            let t2 = S0 as i64 + 20;
+            let sct2 = if c.sct_present { Some((unix_to_ntp_secs(t2 as u64) as u32, 0u32)) } else { None };
+            evs.push((t2, E::Pkt(fdt_packets(TSI, 10, xml2.as_bytes(), 8192, sct2, None).remove(0))));
+            let s1 = obj_sender_time(c, c.obj_est_minus_expires).max(S0 as i64 + 21);
+            for p in &pa {
+                evs.push((s1, E::Pkt(p.clone())));
+            }
+            for p in obj_packets(6, with_fti, &content_b) {
+                evs.push((s1, E::Pkt(p)));
+            }
+        }
         _ => {
             for (t, p) in &fdt {
                 evs.push((*t, E::Pkt(p.clone())));
@@ -193,7 +219,7 @@ pub fn run_case(c: &Case) -> Outcome {
     });
     let ws = mon.writers();
     let mut delivered = vec![ws.iter().any(|w| w.toi == 5 && w.is_complete() && w.data() == content_a)];
-    if c.timing == 4 {
+    if c.timing >= 4 {
         delivered.push(ws.iter().any(|w| w.toi == 6 && w.is_complete() && w.data() == content_b));
     }
     Outcome { logs: ws.iter().map(|w| format!("{}:{}", w.toi, w.short())).collect(), delivered, writers: ws.len(), errors, panic: r.err() }
@@ -205,7 +231,7 @@ pub fn check_case(c: &Case) -> Option<(String, String)> {
         return Some((format!("C19/panic/{}", panic_sig(&p)), format!("panic: {}", p)));
     }
     let exp = expected(c);
-    let cls = format!("{}/{}", if c.sct_present { "sct" } else { "no-sct" }, ["fdt-then-object", "object-inband-then-fdt", "object-cached-then-fdt", "fdt-cleanup-object", "two-objects"][c.timing as usize]);
+    let cls = format!("{}/{}", if c.sct_present { "sct" } else { "no-sct" }, ["fdt-then-object", "object-inband-then-fdt", "object-cached-then-fdt", "fdt-cleanup-object", "two-objects", "two-instances"][c.timing as usize]);
     for (i, (d, e)) in o.delivered.iter().zip(exp.iter()).enumerate() {
         if d != e {
             let key = if *d { format!("C19/delivered-through-expired-fdt/{}", cls) } else { format!("C19/not-delivered-although-fdt-valid/{}", cls) };
@@ -278,7 +304,7 @@ pub fn run(thorough: bool) -> i32 {
         for sct_present in [true, false] {
             for offset in offsets() {
                 for check in [true, false] {
-                    for timing in 0..5u8 {
+                    for timing in 0..6u8 {
                         for g in gaps {
                             if matches!(timing, 1 | 2) && g != gaps[0] {
                                 continue;
@@ -321,7 +347,7 @@ pub fn run(thorough: bool) -> i32 {
     rep.cov("traces_validated_against_impl", cases.len() as u64);
     rep.cov("evaluations", cases.len() as u64);
     rep.cov("distinct_nontrivial", cases.len() as u64);
-    rep.cov("explanation", "full product SCT-Expires {-1h,-3s,+3s,+1h} x SCT present/absent x receiver clock offset {0, +-3 s, +-1 h, +-400 d, +-20 y} x expiry check on/off x 5 arrival orders x object estimate-Expires {-1h,-3s,+3s,+1h} x 1- or 3-packet FDT; harness-crafted FDT and object packets pushed into the real MultiReceiver with the receiver clock as `now`; verdict compared with the two-clock model; plus real Sender sessions (SCT on/off) under every offset");
+    rep.cov("explanation", "full product SCT-Expires {-1h,-3s,+3s,+1h} x SCT present/absent x receiver clock offset {0, +-3 s, +-1 h, +-400 d, +-20 y} x expiry check on/off x 6 arrival orders (incl. two FDT instances, the object announced only by the older one) x object estimate-Expires {-1h,-3s,+3s,+1h} x 1- or 3-packet FDT; harness-crafted FDT and object packets pushed into the real MultiReceiver with the receiver clock as `now`; verdict compared with the two-clock model; plus real Sender sessions (SCT on/off) under every offset");
     rep.cov("exhaustive", true);
     rep.guard("expected_delivered_with_sct", yes[1]);
     rep.guard("expected_not_delivered_with_sct", no[1]);
